@@ -337,6 +337,23 @@ func c02Scenarios(tier string) []*world.Scenario {
 			}
 		}
 	}
+	// a 3.5 KB request and a 3.5 KB reply in three and four segments at the production buffer sizes (small first segment,
+	// then more than twice the inbound ring's size)
+	{
+		big := strings.Repeat("0123456789abcdef", 220)
+		raw := world.Cmd("set", keysA[2], big)
+		rep := world.Bulk(big)
+		for _, cuts := range [][]int{{1000, 3000}, {30, 1500, 3400}, {1024, 2048}, {5, 2100}} {
+			a := c02Seg("set-3.5KB", raw, c02Shapes[0], cuts, nil, false, 0)
+			a.ReadCap, a.WriteCap = 65536, 65536
+			a.Name += "/production-buffers"
+			out = append(out, a)
+			g := c02Seg("get-3.5KB", world.Cmd("get", keysA[2]), rep, nil, cuts, false, 0)
+			g.ReadCap, g.WriteCap = 65536, 65536
+			g.Name += "/production-buffers"
+			out = append(out, g)
+		}
+	}
 	// slow reader: the write oracle answers EAGAIN / short writes
 	slowB := 2
 	if thorough {
